@@ -18,7 +18,7 @@ CHECKS = {
    "Write*+end needs the verif hook VerifFinalize; by-ref vs by-value delivery normalised; rejected documents compared by verdict only.", "4.C02"),
  "C03": ("exploration", "hostile-input monitoring: panic guard, loop-progress hook, CPU watchdog, alloc and event budgets, truncation verdict vs reference decoder",
    "Hostile byte strings (exhaustive tiny inputs, all prefixes, all bit flips, stacked mutations, unbacked length fields, random) are fed to every entry point in several chunkings while monitors watch for panics, idle loops, runaway allocation, event amplification and accepted truncation.",
-   "Loop progress is observed through the verif step hook (CPU-time watchdog as backstop); truncation is classified by the harness' reference decoders; budgets are generous linear bounds.", "4.C03"),
+   "Loop progress is observed through the verif step hook (CPU-time watchdog as backstop); truncation is classified by the harness' reference decoders; budgets are generous linear bounds. Suite scaling (64 KiB..2 MiB extreme shapes, 13 delivery modes, 32 MiB goroutine stack limit) decides proportional time/memory/stack; the lengths, tiny and mutants suites also run as a GOARCH=386 build (32-bit int).", "4.C03"),
  "C04": ("exploration", "differential against encoding/json (token stream, UseNumber) on grammar-generated texts and structural mutants",
    "The real JSON parser is compared with an independent RFC 8259 decoder on generated texts, the repository's corpora and structure-violating token sequences.",
    "Trusts encoding/json and strconv as reference; numeric equality (not event kind) is compared.", "4.C04"),
@@ -27,7 +27,7 @@ CHECKS = {
    "Trusts the harness' refcbor decoder (cross-checked against an independent generator).", "4.C05"),
  "C06": ("exploration", "differential against an independent UBJSON draft-12 decoder",
    "Foreign UBJSON values with every marker, every length marker and nested optimized containers are parsed by the real parser and compared with the harness' own draft-12 decoder.",
-   "Trusts the harness' refubj decoder; spec-ambiguous no-op placements are not generated.", "4.C06"),
+   "Trusts the harness' refubj decoder; no-ops are generated at value positions and between object members.", "4.C06"),
  "C07": ("exploration", "differential: real encoders vs independent reference decoders + byte-level JSON scanners",
    "Streams with every extended event, every byte value in strings, all integer boundaries and float classes are written by the real encoders under every option; independent decoders must read back exactly the stream's value and byte-level scanners check the JSON-specific obligations.",
    "Trusts the reference decoders and the harness' JSON token scanner.", "4.C07"),
@@ -45,10 +45,10 @@ CHECKS = {
    "Trusts the harness comparator (nil==empty, pointer chains ending in nil == nil, interface positions at value level); two recorded known findings.", "4.C11"),
  "C12": ("exploration", "differential against an independent executable model of the documented fold rules",
    "The value recorded from the real Fold of generated and swept (type,value) pairs is compared with an independent ~300-line model of the tag rules (tags.go/README).",
-   "Trusts the model; where the documentation is silent the model copies observed behaviour (listed in the evidence assumptions).", "4.C12"),
+   "Trusts the model; where the documentation is silent the model copies observed behaviour (listed in the evidence assumptions); one recorded known finding (registered folder for a builtin primitive bypassed in typed containers).", "4.C12"),
  "C13": ("exploration", "differential: generic-unfold vs stream value; typed targets with sentinels vs expected merge; number-conversion sweep",
    "Streams with every delivery variant are unfolded into interface{} (value compared with the stream's) and, perturbed (random widths, shuffled members, extra members, by-reference strings), into sentinel-filled typed targets (compared with the expected merge).",
-   "Trusts the fold model used to derive streams and the merge rule; one recorded known finding (ubjson uint64).", "4.C13"),
+   "Trusts the fold model used to derive streams and the merge rule; suite prefilled covers targets that already hold data (null overwrites, regrown elements are new); one recorded known finding (ubjson uint64).", "4.C13"),
  "C14": ("exploration", "hostile (stream,target) pairs under panic guard, allocation budget, memory canaries, checkptr (race build) and ASan; abandon-at-every-k + Reset + probe differential",
    "Mismatching pairs and unbacked announced lengths are unfolded into canary-guarded targets under plain, race+checkptr and (thorough) ASan builds; every abandon point k is followed by Reset/SetTarget and a probe compared with a brand-new unfolder.",
    "Canaries see only writes near the target; sanitizers only executed paths; allocation budget is a generous linear bound.", "4.C14"),
@@ -57,19 +57,19 @@ CHECKS = {
    "A stale zero-copy string is visible only if its memory is overwritten afterwards; the harness reaches caller chunks and parser buffers.", "4.C15"),
  "C16": ("fault_enumeration", "exhaustive fault-position sweep: failing writer at every write k, failing visitor at every event k",
    "For each stream/document/value the fault position is enumerated over ALL writes (encoders) resp. ALL events (parsers, Fold, adapters) of the fault-free run; the call sequence must report an error / return the visitor's own error and deliver nothing afterwards.",
-   "Faults are persistent (as the property states) and injected at the io.Writer / Visitor boundary.", "4.C16"),
+   "Faults are persistent (as the property states) and injected at the io.Writer / Visitor boundary; after the error the caller's next calls (Next x3, remaining Writes) are made too and must deliver no event.", "4.C16"),
  "C17": ("exploration", "history differential: used instance vs fresh instance on a probe; hook assertion of idle stack depths",
    "Histories of 0..6 complete documents through one encoder / parser / decoder / iterator / unfolder are followed by a probe whose output is compared with a new instance's; hooks assert idle nesting stacks after every document.",
    "Needs the verif depth accessors for the idle assertion (output comparison works without).", "4.C17"),
  "C18": ("exploration", "offline checker over the recorded history of Next calls vs reference documents, under varied reader schedules",
    "Streams of 0..5 documents are read through byte and reader decoders with read sizes from 1 byte to the buffer size and EOF with/after data; the recorded history of Next results and events is checked against the reference values (one value per call, then io.EOF, truncation != EOF).",
-   "Zero-length reads are not issued; JSON values are whitespace-separated as the property states.", "4.C18"),
+   "Zero-length reads are issued only by way of buffer size 0 (which must not hang); JSON values are whitespace-separated as the property states.", "4.C18"),
  "C19": ("exploration", "Go race detector over barrier-released goroutine rounds + per-goroutine result equality with a sequential run",
    "4..64 goroutines with their own instances share inputs, values and freshly created types (first-use and cached-use) under GOMAXPROCS 2/16 with injected yields; race-log blocks and any deviation from the sequential results are violations; distinct interleavings are counted.",
    "A race is reported only if both accesses occur in explored executions; failpoints are not used (no locks or suspension points to widen).", "4.C19"),
  "C20": ("exploration", "differential: unfolder with key cache vs without vs document value, keys delivered from scribbled buffers",
    "Key sequences over small alphabets drive hits, misses, evictions and re-insertions for capacities 0..64; each document's target with the cache must equal the target without it and the document's value, with every key's source bytes overwritten after delivery.",
-   "Eviction order is observed (hook) but not an oracle.", "4.C20"),
+   "Eviction order is observed (hook) but not an oracle; suite capacities runs capacities up to 2^63-1 with an allocation bound on EnableKeyCache itself.", "4.C20"),
 }
 
 NOT_YET = {
